@@ -142,8 +142,8 @@ func (m *c04mon) Check(s *sim.Sim, st *sim.Step) []*sim.Violation {
 			case a.Secret2 != "":
 				ok = liveRecovery(s, u.PID, a.Secret2)
 			case kind == "totp":
-				ok = sim.TOTPCodes(u.TOTPSecretKey)[a.Secret]
-				if s.Cfg.OneTimeTOTP && u.TOTPLastCode == a.Secret {
+				ok = sim.TOTPOK(u.TOTPSecretKey, a.Secret)
+				if s.Cfg.OneTimeTOTP && u.TOTPLastCode == strings.TrimSpace(a.Secret) {
 					ok = false
 				}
 			default: // sms
